@@ -130,11 +130,12 @@ def gen_re(rng, depth=0, groups=True):
     return "".join(out)
 
 
-USER_PATS = [".+", ".*", "", "(.+)@(.+)", "(.+)@example\\.com", "admin", "a.*", "[ab].*", "(a|b)(.*)", "(.*)\\.(.*)", "{{", "x{0}"]
+USER_PATS = [".+", ".*", "", "(.+)@(.+)", "(.+)@example\\.com", ".+@(.+)", ".+@([^@]+)", "admin", "a.*", "[ab].*", "(a|b)(.*)", "(.*)\\.(.*)", "{{", "x{0}"]
 COLL_TPLS = ["", "{user}", "{user}/[^/]+", "{user}/.*", "{0}", "{0}/[^/]+", "{1}/{0}", ".*", "shared/.*", "{user}(/.*)?",
-             "[^/]+", "{0}|{user}", "{{user}}", "x{user}y", "{user}{user}", "{}", "{}/{}", ".*{user}.*", "{user", "user}"]
+             "[^/]+", "{0}|{user}", "{{user}}", "x{user}y", "{user}{user}", "{}", "{}/{}", ".*{user}.*", "{user", "user}",
+             "{1}/{user}(/.*)?", "{0}/{user}", "{user}/{0}", "{0}/{user}(/.*)?"]
 USERS = ["", "alice", "bob", "a", "ab", ".*", ".+", "a.c", "abc", "a|b", "(a)", "a@example.com", "bob@example.com", "x@y",
-         "a+b", "[a]", "a\\b", "a b", "A", "admin", "{user}", "{0}", "a*", "é", "a/b", "^a$", "a?", "b.b@example.xcom"]
+         "a+b", "[a]", "a\\b", "a b", "A", "admin", "{user}", "{0}", "a*", "é", "a/b", "^a$", "a?", "b.b@example.xcom", "alice@example.com"]
 PERMS = ["RW", "rw", "R", "r", "RrWw", "", "i", "RWrwDO"]
 
 
@@ -145,6 +146,8 @@ def gen_rules(rng):
         up = rng.choice(USER_PATS) if rng.random() < 0.7 else gen_re(rng)
         cp = rng.choice(COLL_TPLS) if rng.random() < 0.75 else gen_re(rng, groups=False)
         rules.append({"user": up, "coll": cp, "perms": rng.choice(PERMS)})
+        if up not in USER_PATS or cp not in COLL_TPLS:
+            rules[-1]["generated"] = True
     return rules
 
 
@@ -199,6 +202,10 @@ def from_file(ctx):
     discarded = 0
     for i in range(n):
         rules = gen_rules(rng)
+        if rng.random() < 0.15:
+            # the documented multi-domain shape: the domain is captured, the collection pattern uses it together with {user}
+            rules.insert(rng.randint(0, len(rules)), {"user": rng.choice([".+@(.+)", ".+@([^@]+)"]),
+                                                      "coll": rng.choice(["{0}/{user}(/.*)?", "{0}/{user}", "{0}/{user}/[^/]+"]), "perms": "RW"})
         if not all(ini_safe(r["user"]) and ini_safe(r["coll"]) for r in rules):
             discarded += 1
             continue
@@ -207,6 +214,11 @@ def from_file(ctx):
             r = load_rights("from_file", "htpasswd", fn)
             users = rng.sample(USERS, 6)
             paths = rng.sample(paths_pool, 6)
+            # (only with rules from the fixed lists: generated patterns with nested quantifiers need exponential time on longer strings)
+            if not any(x.get("generated") for x in rules) and (rng.random() < 0.3 or any(x["user"] in (".+@(.+)", ".+@([^@]+)") for x in rules)):
+                # users that share what a `user` pattern captures (same domain), asked one after the other on one Rights object
+                users = ["a@example.com", "bob@example.com", "alice@example.com"] + users[:3]
+                paths = ["/example.com/bob@example.com/", "/example.com/a@example.com/x/", "/example.com/alice@example.com/", "/a@example.com/example.com/"] + paths[:3]
             if any("\\w" in x["user"] + x["coll"] or "\\d" in x["user"] + x["coll"] for x in rules):
                 users = [u for u in users if u.isascii()]
                 paths = [p for p in paths if p.isascii()]
